@@ -207,7 +207,8 @@ func (b *Batch) Commit() error {
 		return nil
 	}
 
-	err := b.flushStaged()
+	// 最后一部分暂存数据在完成标识写入成功后才更新索引: 提交失败的批处理在重启后会被整体丢弃, 此前也不应可见
+	dataPos, err := b.writeStaged()
 	if err != nil {
 		return err
 	}
@@ -232,6 +233,7 @@ func (b *Batch) Commit() error {
 		}
 	}
 
+	b.applyStaged(dataPos)
 	b.staged = nil
 	b.stageIndex = nil
 	b.committed = true
@@ -278,11 +280,21 @@ func (b *Batch) flushStagedAndUpdateFile() error {
 
 // 刷新缓存
 func (b *Batch) flushStaged() error {
+	dataPos, err := b.writeStaged()
+	if err != nil {
+		return err
+	}
+	b.applyStaged(dataPos)
+	return nil
+}
+
+// 将暂存数据追加到磁盘并返回各记录的位置, 不更新索引
+func (b *Batch) writeStaged() ([]*datafile.DataPos, error) {
 	// 当前活跃文件已有数据且剩余空间不足以容纳暂存数据, 先更新活跃文件
 	if size := b.db.activeFile.Size(); size > 0 &&
 		size+b.cachedDataSize+maxFinRecord > b.db.options.DataFileSize {
 		if err := b.db.sync(); err != nil {
-			return err
+			return nil, err
 		}
 	}
 	// 顺序遍历暂存数据依次追加磁盘
@@ -294,7 +306,7 @@ func (b *Batch) flushStaged() error {
 	// IO 层面将所有数据字节一次性写入
 	dataPos, err := b.db.activeFile.FlushStaged()
 	if err != nil {
-		return err
+		return nil, err
 	}
 	if len(dataPos) != len(b.staged) {
 		panic("chunk positions length is not equal to pending writes length")
@@ -303,10 +315,14 @@ func (b *Batch) flushStaged() error {
 	// 根据配置判断是否立即持久化
 	if b.options.Sync {
 		if err := b.db.activeFile.Sync(); err != nil {
-			return err
+			return nil, err
 		}
 	}
+	return dataPos, nil
+}
 
+// 根据写入位置更新索引与统计信息, 并清空暂存数据
+func (b *Batch) applyStaged(dataPos []*datafile.DataPos) {
 	// 追加操作全部完成后, 更新索引
 	for i, record := range b.staged {
 		var pos *datafile.DataPos
@@ -328,5 +344,4 @@ func (b *Batch) flushStaged() error {
 	b.staged = b.staged[:0]
 	b.stageIndex = map[uint64][]int{}
 	b.cachedDataSize = 0
-	return nil
 }
